@@ -54,6 +54,8 @@ type TMInput struct {
 	ZeroGrace bool   `json:"zero_grace,omitempty"`
 	Net       TMNet  `json:"net"`
 	Ops       []TMOp `json:"ops"`
+	// disableGenerateCanaryService: no canary Service is generated, the canary route points at the stable Service itself
+	NoCanarySvc bool `json:"no_canary_service,omitempty"`
 }
 
 type TMStep struct {
@@ -224,7 +226,7 @@ func tmProjectKey(cli client.Client, revKey string) TMNet {
 func tmContext(in TMInput, op TMOp) *trafficrouting.TrafficRoutingContext {
 	c := &trafficrouting.TrafficRoutingContext{Key: "Rollout(ns/ro)", Namespace: "ns", Strategy: tmStrategy(op.Strategy),
 		OwnerRef:         metav1.OwnerReference{APIVersion: "rollouts.kruise.io/v1beta1", Kind: "Rollout", Name: "ro", UID: "ro-uid"},
-		RevisionLabelKey: revKey, StableRevision: op.StableRev, CanaryRevision: op.CanaryRev}
+		RevisionLabelKey: revKey, StableRevision: op.StableRev, CanaryRevision: op.CanaryRev, DisableGenerateCanaryService: in.NoCanarySvc}
 	if in.Refs {
 		g := int32(3)
 		if in.ZeroGrace {
@@ -362,7 +364,7 @@ func (trafficmgrEngine) Coq(inAny any, obsAny any) string {
 		kind := map[string]string{"do": "KDo", "finalising": "KFinalising", "restore_stable": "KRestoreStable", "patch_stable": "KPatchStable",
 			"restore_gateway": "KRestoreGateway", "remove_canary": "KRemoveCanary", "route_new": "KRouteNew"}[o.Kind]
 		return emit.App("TCall", kind, emit.App("Build_tctx", emit.Bool(in.Refs), emit.Bool(in.ZeroGrace), coqTMStrategy(o.Strategy),
-			emit.Str(o.StableRev), emit.Str(o.CanaryRev), lu, "true", emit.Bool(o.Fail), "false"))
+			emit.Str(o.StableRev), emit.Str(o.CanaryRev), lu, "true", emit.Bool(o.Fail), emit.Bool(in.NoCanarySvc)))
 	})
 	steps := emit.ListOf(obs.Steps, func(s TMStep) string {
 		pend := emit.ListOf(s.Pending, func(p string) string { return tmActionNames[p] })
@@ -405,6 +407,12 @@ func (trafficmgrEngine) Gen(r *rand.Rand, idx int, tier string) any {
 			s.Weight = &w
 		}
 		in.Net.Route = &s
+	}
+	if chance(r, 12) {
+		in.NoCanarySvc = true
+		if chance(r, 85) {
+			in.Net.CanarySvc = nil
+		}
 	}
 	strategies := []TMStrategy{genTMStrategy(r), genTMStrategy(r)}
 	n := 2 + r.Intn(7)
